@@ -432,13 +432,13 @@ static void run_interp_oriented(int64_t idx, const std::vector<int>& d, bool ver
 }
 static void register_interp_oriented() {
     Radix rx;
-    rx.dims = {(int64_t)TOLS.size(), 2, 2, 2, 8, 4, 16};
+    rx.dims = {2, 2, 2, 2, 8, 4, 16};   // tolerances 1e-1 and 1e-3 (lattice indices 1 and 3)
     Sub s;
     s.name = "interpolation_oriented";
-    s.desc = "interpolation: 8 way-point sets (1-3 points, incl. gentle zigzags) x 16 orientations (8 rotations by 45 deg x mirror) x 4 constraint patterns x cycle x relative x start x tolerance; section oracle + covariance with orientation 0";
+    s.desc = "interpolation: 8 way-point sets (1-3 points, incl. gentle zigzags) x 16 orientations (8 rotations by 45 deg x mirror) x 4 constraint patterns x cycle x relative x start x tolerance {1e-1,1e-3}; section oracle + covariance with orientation 0 (two-way-point cycles excluded from covariance: turning angle exactly pi)";
     s.n = rx.total();
     s.chunk = 64;
-    s.run = [rx](int64_t idx, bool verbose) { run_interp_oriented(idx, rx.decode(idx), verbose); };
+    s.run = [rx](int64_t idx, bool verbose) { std::vector<int> d = rx.decode(idx); d[0] = 1 + 2 * d[0]; run_interp_oriented(idx, d, verbose); };
     SUBS.push_back(s);
 }
 
